@@ -598,8 +598,12 @@ def _reject(R, tmp, rnd, quick):
             return
         R.fail(g, clause, "%s: returned %r instead of raising an error" % (what, res), dict(file=data[:64].hex()))
 
-    for ntr in (1,) if quick else (1, 2, 3):
+    for ntr in (1, 3) if quick else (1, 2, 3):
         good = smf.build(1, 72, [trackev] * ntr)
+        # every byte value on a one-track file; on files of several tracks (where the damaged tag may be a LATER track's:
+        # music before it must not be handed back as if the file were sound) a sample in the quick tier
+        bvals = list(range(256)) if (ntr == 1 or not quick) else \
+            sorted(set([0, 1, 0x20, 0x4d, 0x54, 0x68, 0x72, 0x6b, 0x7f, 0x80, 0xff] + [rnd.randrange(256) for _ in range(6)]))
         # sanity: the unmodified file is accepted (otherwise the rejections below prove nothing)
         R.case(g, ("accepts-wellformed", ntr))
         with open(path, "wb") as f:
@@ -611,13 +615,13 @@ def _reject(R, tmp, rnd, quick):
         except Exception as e:  # noqa
             R.fail(g, "wellformed-file-is-read", "%s: %s" % (type(e).__name__, e), good.hex())
         for i in range(4):
-            for b in range(256):
+            for b in bvals:
                 if b != good[i]:
                     attempt(good[:i] + bytes([b]) + good[i + 1:], "bad-header-tag-rejected", "header byte %d = %02x" % (i, b))
         pos = 14
         for t in range(ntr):
             for i in range(4):
-                for b in range(256):
+                for b in bvals:
                     if b != good[pos + i]:
                         attempt(good[:pos + i] + bytes([b]) + good[pos + i + 1:], "bad-track-tag-rejected",
                                 "track %d tag byte %d = %02x" % (t, i, b))
